@@ -5,6 +5,11 @@ import os
 
 import vcheck
 
+# further Props modules of C06 (imported by NGF.Props.C06 as well; listed so that the axiom audit names them)
+# NGF.Props.C01Refs: C01's Service-relevance theorem over Model/PipelineRefs (built in C06's round; audited here until
+# props/c01.py lists it)
+EXTRA_MODULES = ["NGF.Props.C01Refs"]
+
 LATER_REASONS = {"BackendNotFound", "UnsupportedValue", "InvalidIPFamily"}
 VALIDATOR_FREE = {"RefNotPermitted", "Invalid", "ProtocolConflict", "HostnameConflict", "InvalidCertificateRef"}
 
@@ -74,9 +79,19 @@ def run(ctx):
     if ctx.tier == "thorough":
         ctx.leanchecker("NGF.Props.C06")
 
+    for mod in EXTRA_MODULES:
+        ctx.obligations(mod)
+        if ctx.tier == "thorough":
+            ctx.leanchecker(mod)
+
     n_res, n_val, n_e2e, n_scen, n_seq, steps = (600, 800, 260, 120, 70, 4) if ctx.tier == "quick" else (40000, 40000, 5000, 2500, 900, 6)
+    n_refs = 200 if ctx.tier == "quick" else 6000
     chunk = 400  # pipeline cases per harness invocation (bounds memory: a case carries the generated files)
     st = {"n": 0, "diffs": 0, "panics": 0, "e2e": 0, "first": []}
+    # stream `refs`: Model/PipelineRefs (resolve, gen ∘ resolve) against the real graph and the real http.conf
+    rf = {"cases": 0, "in_fragment": 0, "refs_compared": 0, "conf_equal": 0, "targets": 0, "invalid_shares": 0, "diffs": 0, "skipped": 0,
+          "referenced_services": 0, "names_ok": 0}
+    rclasses, routside = collections.Counter(), collections.Counter()
     vhist, dkinds, h, kinds = collections.Counter(), collections.Counter(), collections.Counter(), collections.Counter()
     nontrivial, samples, nsig = set(), [], collections.Counter()
 
@@ -91,6 +106,55 @@ def run(ctx):
         if not st["first"]:
             st["first"] = [l[:300] for l in lines[:1]]
         judge_and_compare(lines, parsed)
+        refs_compare([l for l, d in zip(lines, parsed) if "flat" in d], [d for d in parsed if "flat" in d])
+
+    def refs_compare(lines, parsed):
+        """Model/PipelineRefs: `resolveRef` vs the real graph BackendRefs, `gen (resolve c)` vs the real http.conf."""
+        outs = ctx.driver("refs", lines) if lines else []
+        for d, o in zip(parsed, outs):
+            rf["cases"] += 1
+            try:
+                m = json.loads(o)
+            except ValueError:
+                m = None
+            if m is None:
+                rf["diffs"] += 1
+                if rf["diffs"] <= 3:
+                    ctx.broken(f"refs driver could not decode case {d['id']}: {o[:200]}", replay={"case": d["id"], "in": d["in"]})
+                continue
+            if m.get("skip"):
+                rf["skipped"] += 1
+                continue
+            if not m["inFragment"]:
+                routside[m["why"][:60]] += 1
+                continue
+            rf["in_fragment"] += 1
+            rf["refs_compared"] += m["refsCompared"]
+            rf["targets"] += m["targets"]
+            rf["invalid_shares"] += m["invalidShares"]
+            for c in m["refClasses"]:
+                rclasses[c] += 1
+            bad = []
+            if not m["shapeOK"]:
+                bad.append("fragment conversion changed a route (harness/driver defect)")
+            bad += [f"graph BackendRef differs: {x}" for x in m["refsDiffs"]]
+            if sorted(d.get("refsvcs") or []) != m["refSvcs"]:
+                bad.append(f"Graph.ReferencedServices real {sorted(d.get('refsvcs') or [])} model {m['refSvcs']}")
+            rf["referenced_services"] += len(m["refSvcs"])
+            rf["names_ok"] += 1 if m["namesOK"] else 0
+            if m["confEqual"]:
+                rf["conf_equal"] += 1
+            else:
+                bad.append(f"http.conf differs from gen (resolve c): {m['confDiff'][:400]}")
+            if bad:
+                rf["diffs"] += 1
+                st["diffs"] += 1
+                dkinds["refs"] += 1
+                if rf["diffs"] <= 3:
+                    ctx.broken(f"Model/PipelineRefs and implementation disagree on case {d['id']}: {bad[0]}",
+                               replay={"kind": "refs", "case": d["id"], "differences": bad[:10], "in": d["in"],
+                                       "services": d["flat"]["svcs"], "graph": d["obs"]["graph"]["routes"],
+                                       "http.conf": d["obs"]["files"]["http"][:20000]})
 
     def judge_and_compare(lines, parsed):
         # ---- the property itself, evaluated by the Lean judge on what the real pipeline produced
@@ -203,7 +267,7 @@ def run(ctx):
     # exhaustive: one grant x one cross-namespace reference, 1728 attribute combinations per referrer kind
     process(ctx.harness(["-mode", "cube"]) or [])
     for mode, n, off in (("res", n_res, 0), ("val", n_val, 104729), ("e2e", n_e2e, 1299709),
-                         ("scen", n_scen, 15485863), ("seq", n_seq, 32452843)):
+                         ("scen", n_scen, 15485863), ("seq", n_seq, 32452843), ("refs", n_refs, 49979687)):
         per = n if mode in ("res", "val") else (chunk if mode != "seq" else max(1, chunk // (steps + 1)))
         done = 0
         while done < n:
@@ -217,6 +281,9 @@ def run(ctx):
     if st["panics"] > max(3, st["e2e"] // 20):
         ctx.broken(f"the real pipeline panicked in {st['panics']} of {st['e2e']} scenarios (C05's subject; C06 cannot judge them)")
     diffs = st["diffs"]
+    if n_refs and rf["in_fragment"] < rf["cases"] // 2:
+        ctx.broken(f"stream refs: only {rf['in_fragment']} of {rf['cases']} generated scenarios are inside the fragment "
+                   f"(outside: {dict(routside)}) — the tie of Model/PipelineRefs does not check")
     ctx.finish({
         "evaluations": st["n"],
         "distinct_nontrivial": len(nontrivial),
@@ -230,6 +297,11 @@ def run(ctx):
         "cases_by_kind": dict(kinds),
         "corpus_cases": n_corpus,
         "judge_verdicts": dict(vhist),
+        "refs_stream": dict(rf, outside_fragment=dict(routside), ref_classes=dict(sorted(rclasses.items())),
+                            note="in-fragment scenarios (c02.GenFragment + redrawn Services/backendRefs/ReferenceGrants): every "
+                                 "backendRef of every route compared with graph.BackendRef{Valid,SvcNsName,ServicePort.Port,Weight}, "
+                                 "the whole http.conf (locations, redirects, upstream / split_clients targets and shares) with "
+                                 "Pipeline.gen (PipelineRefs.resolve c)"),
         "generator_histogram": dict(sorted(h.items())),
     }, assumptions=[
         "Kubernetes object names and namespaces contain no '_' (DNS-1123), so an upstream name ns_name_port and a key pair id "
@@ -240,7 +312,12 @@ def run(ctx):
         "the watch on ReferenceGrants uses GenerationChangedPredicate (pinned by store_as_modelled): every create and delete and "
         "every update that changes the spec (the API server bumps metadata.generation) reaches the change processor",
         "which upstream *servers* an upstream name resolves to is C13's subject; which certificate a host name gets is C16's",
+        "the theorems over gen (resolve c) (Props/C06 §8) speak about the fragment of Model/Pipeline.lean (one served Gateway, HTTP "
+        "listeners, HTTPRoutes with Exact/PathPrefix matches, optional RequestRedirect; no BackendTLSPolicy, NginxProxy, appProtocol); a "
+        "generated cluster is inside iff PipelineTie.toFragment and Pipeline.inFragment accept it (measured: refs_stream.in_fragment)",
     ], trusted=[
+        "lean/NGF/Model/PipelineTie.lean, harness/c02/flat.go (shared, C02): fragment view of the flat scenario and abstraction of the real "
+        "http.conf/matches.json to Pipeline.Conf; lean/NGF/Model/PipelineRefsTie.lean: pairing of rules with their backendRefs",
         "harness/c06/flat.go: copies the fields of the typed objects and of graph/dataplane/status values into flat JSON",
         "harness/pipeline (shared): wiring of the real ChangeProcessor, BuildConfiguration, Generator and status setters",
         "lean/NGF/Model/NginxLex.lean, NginxParse.lean (shared): what the NGINX text means",
